@@ -183,24 +183,78 @@ func c14Bool(c *Ctx) {
 		}
 	}
 	var sub types.Object
-	ast.Inspect(outer.Body, func(m ast.Node) bool {
-		if vs, ok := m.(*ast.ValueSpec); ok && len(vs.Names) == 1 && sub == nil {
-			if t := info.TypeOf(vs.Names[0]); t != nil && t.String() == "bool" {
-				sub = info.ObjectOf(vs.Names[0])
+	carried := false // the flag lives across iterations: the table must hold whatever the previous condition left in it
+	findFlag := func(root ast.Node, stopAtLoop bool) {
+		ast.Inspect(root, func(m ast.Node) bool {
+			if stopAtLoop && m == ast.Node(outer) {
+				return false
 			}
-		}
-		return true
-	})
+			if vs, ok := m.(*ast.ValueSpec); ok && len(vs.Names) == 1 && sub == nil {
+				if t := info.TypeOf(vs.Names[0]); t != nil && t.String() == "bool" {
+					sub = info.ObjectOf(vs.Names[0])
+				}
+			}
+			return true
+		})
+	}
+	findFlag(outer.Body, false)
+	if sub == nil {
+		findFlag(f.Body, true)
+		carried = sub != nil
+	}
 	if sub == nil || body == nil {
 		c.R.Unresolved(rule, "filterHit: per-condition hit flag")
 		return
 	}
+	if carried {
+		// the flag outlives one condition: it must be cleared before anything in the body reads or sets it
+		isClear := func(n ast.Node) bool {
+			as, ok := n.(*ast.AssignStmt)
+			if !ok || len(as.Lhs) != 1 || len(as.Rhs) != 1 {
+				return false
+			}
+			id, ok := as.Lhs[0].(*ast.Ident)
+			return ok && info.ObjectOf(id) == sub && core.ExprStr(as.Rhs[0]) == "false"
+		}
+		uses := func(n ast.Node) bool {
+			if isClear(n) {
+				return false
+			}
+			hit := false
+			ast.Inspect(n, func(k ast.Node) bool {
+				if id, ok := k.(*ast.Ident); ok && info.ObjectOf(id) == sub {
+					hit = true
+				}
+				return true
+			})
+			return hit
+		}
+		at, _, reached := g.ReachesAvoiding(core.Point{B: body, I: 0}, isClear, uses)
+		where := ""
+		if reached && at != nil {
+			where = " — VIOLATED at " + c.pos(at.Pos())
+		}
+		c.R.Checkf(rule, "hit-flag-is-per-condition@filterHit", c.pos(outer.Pos()), !reached,
+			"the hit flag is declared outside the loop over the line's conditions, so every path through the loop body clears it before reading or setting it: a hit left over from the previous condition would otherwise satisfy this one (a node matching name(a) passes `name(a) && subtag(b)` without carrying tag b)%s", where)
+	}
 	notExpr := core.ExprStr(outer.Value) + ".Not"
 	rows := 0
 	for _, not := range []bool{false, true} {
-		job := &fdt.Job{F: f, Start: core.Point{B: body, I: 0}, StopAt: heads, Tracked: map[types.Object]string{sub: "hit"}, Inputs: map[string]constant.Value{notExpr: constant.MakeBool(not)}, MaxSteps: 2000}
+		inits := []map[types.Object]constant.Value{nil}
+		if carried {
+			inits = []map[types.Object]constant.Value{{sub: constant.MakeBool(false)}, {sub: constant.MakeBool(true)}}
+		}
 		var got []string
-		for _, o := range job.Run() {
+		var job *fdt.Job
+		var outs []fdt.Outcome
+		var undecided []string
+		for _, init := range inits {
+			job = &fdt.Job{F: f, Start: core.Point{B: body, I: 0}, StopAt: heads, Tracked: map[types.Object]string{sub: "hit"}, Init: init, Inputs: map[string]constant.Value{notExpr: constant.MakeBool(not)}, MaxSteps: 2000}
+			outs = append(outs, job.Run()...)
+			undecided = append(undecided, job.Undecided...)
+		}
+		job.Undecided = undecided
+		for _, o := range outs {
 			switch o.Kind {
 			case "next":
 				got = append(got, "continue{hit="+o.State["hit"]+"}")
